@@ -124,7 +124,7 @@ def gen_cfg(name, rng, n, kind):
             pairs = sorted(sorted(p) for p in pairs)
         return dict(mask=pairs or [[0, 1]], offset=rng.choice([None, 0, 2.5, 10]))
     if name in STATS:
-        return dict(target=rng.choice([1.0, 5.0, 0.37, 12.5]), near=rng.random() < 0.15)
+        return dict(target=rng.choice([1.0, 5.0, 0.37, 12.5]), near=False)
     if name in ('impose_unique', 'unique'):
         return dict(full=rng.choice(['none', 'int', 'float', ['range', -2, 12], ['dict', -3, 13], ['dictint', -3, 13],
                                      ['list', [-1, 0, 1, 2, 3, 5, 8, 9]]]))
